@@ -653,8 +653,36 @@ class C44(Check):
         "single-dash spelling -n=v is undocumented: rejection would be tolerated (EITHER), a wrong value not",
     ]
 
+    def _locale_case(self, st):
+        """A UTF-8 config file read by a process whose locale encoding is not UTF-8 (LC_ALL=C): config files are UTF-8,
+        whatever the locale (documented since 4.1)."""
+        import subprocess
+        from mc.core import REPO
+        d = tempfile.mkdtemp(prefix="verif-c44-")
+        try:
+            path = os.path.join(d, "conf.py")
+            with open(path, "wb") as f:
+                f.write('motto = "caf\u00e9 \u2603"\nnames = ["\u00e9", "b"]\n'.encode("utf-8"))
+            code = ("import sys; sys.path.insert(0, %r)\n"
+                    "from tornado.options import OptionParser\n"
+                    "p = OptionParser(); p.define('motto', type=str); p.define('names', type=str, multiple=True)\n"
+                    "p.parse_config_file(%r)\n"
+                    "sys.stdout.write(ascii((p.motto, p.names)))\n" % (REPO, path))
+            env = dict(os.environ, LC_ALL="C", LANG="C", PYTHONUTF8="0", PYTHONCOERCECLOCALE="0", PYTHONIOENCODING="ascii")
+            r = subprocess.run([sys.executable, "-c", code], env=env, capture_output=True, text=True, timeout=60)
+            st.ev()
+            st.nontriv(("locale-C",))
+            want = ascii(("caf\u00e9 \u2603", ["\u00e9", "b"]))
+            if r.returncode != 0 or r.stdout != want:
+                st.violation("config-file:not-read-as-utf-8-under-C-locale",
+                             "parse_config_file of a UTF-8 file in a process with LC_ALL=C: exit %d, values %s, expected %s; stderr %s"
+                             % (r.returncode, r.stdout[:120], want, r.stderr.strip().splitlines()[-1:] if r.stderr else ""),
+                             {"locale": "C"})
+        finally:
+            shutil.rmtree(d, ignore_errors=True)
+
     def partitions(self, tier):
-        parts = []
+        parts = [("locale", 0, 0)]
         for tname in TNAMES:
             for multiple in (False, True):
                 for ni in range(len(NAMES)):
@@ -663,6 +691,8 @@ class C44(Check):
 
     # ------------------------------------------------------------------
     def run_partition(self, part, tier, st):
+        if part[0] == "locale":
+            return self._locale_case(st)
         from tornado import options as opts
         tname, multiple, ni = part
         name = NAMES[ni]
@@ -810,6 +840,11 @@ class C44(Check):
 
     # ------------------------------------------------------------------
     def replay(self, case):
+        if case.get("locale"):
+            from mc.core import Stats
+            st = Stats()
+            self._locale_case(st)
+            return repr({k: v[0] for k, v in st.violations.items()}) or "ok"
         from tornado import options as opts
         ns = {"datetime": datetime, "NOVAL": NOVAL, "inf": float("inf"), "nan": float("nan")}
         default = eval(case["default"], ns)
